@@ -47,6 +47,17 @@ VerdictScripts ==
                OpsOp(p1), V("v"), OpsOp(p2), V("v") >> : sg \in Classes(ka[1], ka[2]) }
           : ka \in Common, pl \in Providers, p1 \in Providers, p2 \in Providers }
 VerdictScriptsOK == { s \in VerdictScripts : s[6].name # s[8].name }
+\* key attributes neither provider consumes (use, key_ops) and the private form of the key as verification key:
+\* same verdict from both
+MetaVariants == { <<<<"sign">>, NONE>>, <<<<"verify">>, NONE>>, <<<<"encrypt", "decrypt">>, "enc">>, <<<<>>, "enc">>, <<<<"sign", "verify">>, "sig">>, <<<<"deriveBits">>, "other">> }
+MetaBase == { <<AsymKey("rsa2048a", 0, NONE, NONE), "RS256">>, <<AsymKey("rsa2048a", 0, NONE, NONE), "PS256">>, <<AsymKey("p256a", 0, NONE, NONE), "ES256">>,
+              <<AsymKey("p384a", 0, NONE, NONE), "ES384">>, <<AsymKey("ed25519a", 0, NONE, NONE), "EdDSA">>, <<AsymKey("ed448a", 0, NONE, NONE), "EdDSA">>,
+              <<OctKey(32, "a", NONE, NONE), "HS256">> }
+MetaScripts ==
+  UNION { { << OpsOp(pl), LoadOp(<<[ka[1] EXCEPT !.priv = pv, !.ops = mv[1], !.use = mv[2]]>>), CNewOp, CSetKeyOp(ka[2], 0),
+               ForgeOp(0, TokOf(ka[2], S("valid", ka[2], ka[1]))), OpsOp(p1), V("v"), OpsOp(IF p1 = "openssl" THEN "gnutls" ELSE "openssl"), V("v") >>
+             : mv \in MetaVariants, pv \in {0, 1} }
+          : ka \in MetaBase, pl \in Providers, p1 \in Providers }
 \* altered after signing
 AlterScripts ==
   { << LoadOp(<<ka[1]>>), CNewOp, CSetKeyOp(ka[2], 0), ForgeOp(0, [TokOf(ka[2], S("valid", ka[2], ka[1])) EXCEPT !.alter = alt]),
@@ -99,7 +110,7 @@ NameOps == { OpsOp(n) : n \in Names } \cup { OpsTOp(i) : i \in 0..5 } \cup { Ops
 NameScripts == { <<a, b>> : a \in NameOps, b \in NameOps } \cup { <<a, b, c>> : a \in {OpsOp("gnutls"), OpsTOp(2)}, b \in NameOps, c \in {OpsOp("openssl"), OpsOp("zz")} }
 
 \* (families, not their union: see ISpecFam in Interp.tla)
-MCSpec == ISpecFam(<<VerdictScriptsOK, AlterScripts, TokenScripts, RandScripts, NameScripts, HistoryScripts, StaleScripts>>)
+MCSpec == ISpecFam(<<VerdictScriptsOK, AlterScripts, TokenScripts, RandScripts, NameScripts, HistoryScripts, StaleScripts, MetaScripts>>)
 
 \* on the specification: switching happens only on exact names / ids of compiled providers
 SwitchOnlyExact ==
